@@ -68,7 +68,8 @@ func c13Run(t *testing.T, s *sim.Scn) *sim.Outcome {
 	before := raceLogSize()
 	if p := sim.Bubble(t, func() { c13Body(t, s, o) }); p != nil {
 		msg := fmt.Sprint(p)
-		if strings.Contains(msg, "deadlock") {
+		if false {
+		} else if strings.Contains(msg, "deadlock") {
 			o.Fail("C13/goroutines-left-blocked", "", -1, msg, "no goroutine is left blocked after shutdown")
 		} else {
 			o.Fail("C13/panic", "", -1, msg, "no panic")
